@@ -9,19 +9,22 @@ import "strings"
 // shunting-yard and tree builder, and are evaluated by the real operators on the same symbolic document: the
 // results must be the same list (or both must fail).
 
+// c09LayoutNames: ordered so that a tier that takes only the first k layouts gets the most different ones.
+var c09LayoutNames = []string{"minimal-parentheses", "tabs", "carriage-return-line-feed", "comments", "extra-blanks", "newlines", "blank-tab-newline"}
+
 func c09Layout(text string, layout int) string {
-	switch layout {
-	case 1:
+	switch c09LayoutNames[layout] {
+	case "extra-blanks":
 		return strings.ReplaceAll(text, " ", "   ")
-	case 2:
+	case "newlines":
 		return strings.ReplaceAll(text, " ", "\n")
-	case 3:
+	case "comments":
 		return strings.ReplaceAll(text, " ", " # note\n ")
-	case 4:
+	case "tabs":
 		return strings.ReplaceAll(text, " ", "\t")
-	case 5:
+	case "carriage-return-line-feed":
 		return strings.ReplaceAll(text, " ", "\r\n") // an expression file written on Windows
-	case 6:
+	case "blank-tab-newline":
 		return strings.ReplaceAll(text, " ", " \t\n")
 	}
 	return text
@@ -59,7 +62,7 @@ func VerifC09Generated() {
 	xs := [4]string{verifStrN("x0", 1, "03"), verifStrN("x1", 1, "03"), verifStrN("b", 1, "03"), verifStrN("mk", 1, "03")}
 	want, parsedT, okT := c09EvalText(g.t, xs)
 	got, parsedM, okM := c09EvalText(text, xs)
-	label := []string{"minimal-parentheses", "extra-blanks", "newlines", "comments", "tabs", "carriage-return-line-feed", "blank-tab-newline"}[layout]
+	label := c09LayoutNames[layout]
 	verifAssert(parsedT, "C09/explicitly-parenthesised-form-rejected")
 	verifAssert(parsedM == parsedT, "C09/generated-form-rejected "+label)
 	if !parsedT || !parsedM {
